@@ -58,23 +58,29 @@ def readCode (srcLine : Str) (column : Nat) (endl : Str) : Str :=
 
 def mInc : Str := "{inconclusive:".toList
 
-/-- the `while (pos1 != npos)` loop over `{inconclusive:text}`.  Every pass removes at least the 14 bytes of
-    one `{inconclusive:` from the text, so `fuel = length + 1` is never used up (fuel 0 = "still looping"). -/
-def inconclusiveLoop (inc : Bool) : Nat → Str → Option Nat → Str
-  | 0, result, _ => result
-  | _ + 1, result, none => result
+/-- the `while (pos1 != npos)` loop over `{inconclusive:text}`; `none` = the loop does not return.
+    `brk` = the source has the guard `if (pos2 == npos) break;` (set by the translator from the working tree).
+    Without the guard an unterminated `{inconclusive:` makes `pos2 - pos1 + 1` wrap: for `pos1 > 0` the count is
+    huge (rest of the string), for `pos1 = 0` it is 0 — `findAndReplace(result, "", …)` then never advances.
+    Every completed pass removes at least the 14 bytes of one `{inconclusive:`, so `fuel = length + 1` suffices. -/
+def inconclusiveLoop (brk inc : Bool) : Nat → Str → Option Nat → Option Str
+  | _, result, none => some result
+  | 0, _, some _ => none
   | fuel + 1, result, some pos1 =>
-    let pos2 := find ['}'] result (pos1 + 1)
-    let replaceFrom := match pos2 with
-      | some p2 => (result.drop pos1).take (p2 - pos1 + 1)
-      | none => result.drop pos1
-    let replaceWith := if inc then
-        (match pos2 with
-         | some p2 => (result.drop (pos1 + 14)).take (p2 - pos1 - 14)
-         | none => result.drop (pos1 + 14))
-      else []
-    let result' := far result replaceFrom replaceWith
-    inconclusiveLoop inc fuel result' (find mInc result' pos1)
+    match find ['}'] result (pos1 + 1) with
+    | some p2 =>
+      let replaceFrom := (result.drop pos1).take (p2 - pos1 + 1)
+      let replaceWith := if inc then (result.drop (pos1 + 14)).take (p2 - pos1 - 14) else []
+      let result' := far result replaceFrom replaceWith
+      inconclusiveLoop brk inc fuel result' (find mInc result' pos1)
+    | none =>
+      if brk then some result
+      else if pos1 = 0 then none
+      else
+        let replaceFrom := result.drop pos1
+        let replaceWith := if inc then result.drop (pos1 + 14) else []
+        let result' := far result replaceFrom replaceWith
+        inconclusiveLoop brk inc fuel result' (find mInc result' pos1)
 
 /-- `static void replace(std::string&, const unordered_map&)`: one left-to-right pass, keys are `{…}` up to the
     first '}' (`k` = bytes still to skip; `stop` = the `break` when no '}' follows a '{') -/
@@ -106,30 +112,34 @@ def locText (src : Loc → Str) (shortMsg : Str) (tl : Str) (l : Loc) : Str :=
   let t := far t "{info}".toList (if l.info = [] then shortMsg else l.info)
   far t "{code}".toList (readCode (src l) l.column (endlOf t))
 
-/-- the first part of `toString`: the message template -/
-def mainText (src : Loc → Str) (f : Finding) (verbose : Bool) (tf : Str) : Str :=
+/-- the first part of `toString`: the message template (`none`: `toString` does not return) -/
+def mainText (brk : Bool) (src : Loc → Str) (f : Finding) (verbose : Bool) (tf : Str) : Option Str :=
   let idStr := if f.guideline = [] then f.id else f.guideline
   let sevS := if f.classification = [] then sevStr f.severity else f.classification
   let r := far tf "{id}".toList idStr
-  let r := inconclusiveLoop f.inconclusive (r.length + 1) r (find mInc r 0)
-  let r := far r "{severity}".toList sevS
-  let r := far r "{cwe}".toList (natDec f.cwe)
-  let r := far r "{message}".toList (if verbose then f.verboseMsg else f.shortMsg)
-  let r := far r "{remark}".toList f.remark
-  match f.stack.getLast? with
-  | some last =>
-    let r := far r "{callstack}".toList (callStackToString f.stack)
-    let r := far r "{file}".toList (toNative last.file)
-    let r := far r "{line}".toList (intDec last.line)
-    let r := far r "{column}".toList (natDec last.column)
-    far r "{code}".toList (readCode (src last) last.column (endlOf r))
-  | none => replaceMap noStackMap r
+  match inconclusiveLoop brk f.inconclusive (r.length + 1) r (find mInc r 0) with
+  | none => none
+  | some r =>
+    let r := far r "{severity}".toList sevS
+    let r := far r "{cwe}".toList (natDec f.cwe)
+    let r := far r "{message}".toList (if verbose then f.verboseMsg else f.shortMsg)
+    let r := far r "{remark}".toList f.remark
+    match f.stack.getLast? with
+    | some last =>
+      let r := far r "{callstack}".toList (callStackToString f.stack)
+      let r := far r "{file}".toList (toNative last.file)
+      let r := far r "{line}".toList (intDec last.line)
+      let r := far r "{column}".toList (natDec last.column)
+      some (far r "{code}".toList (readCode (src last) last.column (endlOf r)))
+    | none => some (replaceMap noStackMap r)
 
 /-- `ErrorMessage::toString(verbose, templateFormat, templateLocation)`; `src l` = the (trimmed) source line
-    `readCode` finds for location `l` -/
-def toString (src : Loc → Str) (f : Finding) (verbose : Bool) (tf tl : Str) : Str :=
-  let r := mainText src f verbose tf
-  if tl ≠ [] ∧ 2 ≤ f.stack.length then r ++ f.stack.flatMap (fun l => '\n' :: locText src f.shortMsg tl l) else r
+    `readCode` finds for location `l`; `brk` see `inconclusiveLoop`; `none` = the call does not return -/
+def toString (brk : Bool) (src : Loc → Str) (f : Finding) (verbose : Bool) (tf tl : Str) : Option Str :=
+  match mainText brk src f verbose tf with
+  | none => none
+  | some r =>
+    some (if tl ≠ [] ∧ 2 ≤ f.stack.length then r ++ f.stack.flatMap (fun l => '\n' :: locText src f.shortMsg tl l) else r)
 
 /-! ## the static part of a template (`substituteTemplateFormatStatic`) -/
 
